@@ -124,6 +124,68 @@ def record(o0: bool, o1: bool, has_message: bool, bad_template: bool, no_templat
     return True
 
 
+def named_parent(o0: bool, o1: bool, p0: bool, p1: bool, delay: bool, has_message: bool) -> bool:
+    """
+    A feedback whose parent is given by NAME or NUMBER (how sections are referred to) instead of a group object, or whose
+    parent group is itself untriggered: recorded exactly once on the side its condition decides, truth value = outcome,
+    nothing raised unless the condition raised.
+
+    pre: True
+    post: _
+    """
+    if tick():
+        return True
+    outcome, pk = bits(o0, o1), bits(p0, p1)
+    if outcome == 3:
+        return True
+    r = Report()
+    parent = ["sec1", 2, Group(report=r, label="g", activate=False), None][pk]
+    kw = {"report": r, "parent": parent, "fields": {"f": "v"}}
+    if has_message:
+        kw["message"] = "m"
+    if delay:
+        kw["delay_condition"] = True
+    fb = Probe.__new__(Probe)
+    fb.outcome = outcome
+    raised = None
+    try:
+        fb.__init__(**kw)
+        if delay:
+            fb._handle_condition()
+    except Exception as e:
+        raised = e
+    want = outcome == 1
+    if _count(r.feedback, fb) != (1 if want else 0) or _count(r.ignored_feedback, fb) != (0 if want else 1):
+        return False
+    if bool(fb) != want:
+        return False
+    if outcome == 2:
+        return isinstance(raised, Boom) and fb._status == "error"
+    return raised is None and fb._status == ("active" if want else "inactive")
+
+
+def logging_commands(k0: bool, k1: bool, two: bool) -> bool:
+    """
+    log() / debug() / system_error-free bookkeeping commands: every item handed to them is what the recorded feedback
+    delivers as its message (debug: one feedback per item, the item itself; log: the items joined by the separator).
+
+    pre: True
+    post: _
+    """
+    if tick():
+        return True
+    from pedal.core.commands import log, debug
+    items = [("hello",), ("a", "b"), (3,), ("",)][bits(k0, k1)]
+    r = Report()
+    if two:
+        debug(*items, report=r)
+        got = [f.message for f in r.feedback + r.ignored_feedback if f.label == "debug"]
+        return got == list(items)
+    log(*items, report=r)
+    got = [f.message for f in r.feedback + r.ignored_feedback if f.label == "log"]
+    return got == [" ".join(str(i) for i in items)]
+
+
 COMMANDS = [lambda r, a: set_correct(report=r, activate=a), lambda r, a: compliment("c", report=r, activate=a),
             lambda r, a: give_partial(0.5, report=r, activate=a), lambda r, a: explain("e", report=r, activate=a),
             lambda r, a: gently("g", report=r, activate=a)]
